@@ -68,7 +68,7 @@ FLOORS = {
         'ref_steps': 300, 'quiescent_checks': 300, 'disposals_observed': 60,
         'disposed_after_sharing': 30, 'referent_reads_compared': 40,
         'child_started': 20, 'child_started:spawn': 5, 'child_started:fork': 8,
-        'child_started:forkserver': 5, 'pipe_transfers': 25,
+        'child_started:forkserver': 4, 'pipe_transfers': 15,
         'hostile_attempts': 140, 'hostile_rejected': 90, 'wrong_key_rejected': 50,
         'right_key_accepted': 3, 'unexposed_refused': 8, 'pool_results_compared': 5,
         'stale_token_refused': 1}),
